@@ -179,9 +179,9 @@ PROPS = {
         hosts={'src/xls.rs': ['c06_xls.rs'], 'src/cfb.rs': ['c06_cfb.rs'], 'src/xlsx/mod.rs': ['c06_xlsx.rs'], 'src/xlsb/mod.rs': ['c03_xlsb.rs'], 'src/xlsb/cells_reader.rs': ['c06_cells.rs'], 'src/lib.rs': ['c06_lib.rs'], 'src/vba.rs': ['c06_vba.rs']},
         select=[r'^c06_'],
         substitutions='C03',
-        functions=['xls::parse_number/parse_rk/parse_bool_err/parse_label_sst/parse_formula_value/parse_mul_rk/parse_merge_cells/parse_dimensions/parse_xf/parse_sheet_metadata/parse_sst', 'xls::RecordIter::next',
+        functions=['xls::parse_number/parse_rk/parse_bool_err/parse_label_sst/parse_formula_value/parse_mul_rk/parse_merge_cells/parse_dimensions/parse_xf/parse_sheet_metadata/parse_sst/parse_format/parse_label/parse_defined_names', 'xls::RecordIter::next',
                    'vba::read_variable_record', 'vba::check_record', 'vba::check_variable_record', 'cfb::Sectors::get', 'cfb::Sectors::get_chain', 'cfb::Header::from_reader', 'xlsb::cells_reader::XlsbCellsReader::next_cell', 'xlsx::get_row_and_optional_column', 'Dimensions::len', 'Range::from_sparse'],
-        stubs=['encoding_rs::Encoding::decode -> model_utf16_decode', 'xlsb byte source -> KSrc (as in C03)'],
+        stubs=['encoding_rs::Encoding::decode -> model_utf16_decode', 'xlsb byte source -> KSrc (as in C03)', 'utils::push_column -> no-op and alloc::fmt::format -> empty string in the defined-name harnesses (only panic-freedom is decided there)'],
         bounds={'record bodies': 'every length 0..=N with N in 9..18 per entry point', 'FAT': '4 sectors; three concrete cycle shapes (self loop, 2-cycle, tail + 3-cycle) and a dangling id symbolic in [2, 2^32-3]', 'xlsb records': 'declared length shorter than the kind needs'},
         outside=['zip and quick-xml internals', 'decompress_stream on arbitrary bytes (3 arbitrary bytes exceed 400 s: every byte may be a copy token)', 'open_workbook_auto trial opening', 'whole-file time/space proportionality', 'vba.rs read_dir_information / references on arbitrary bytes, xls/xlsb parse_formula on arbitrary tokens (not admitted)'],
         assumptions=['declared counts in MergeCells/SST headers bounded by 3 / 2 so that the loop bound is finite'],
